@@ -26,6 +26,8 @@ import (
 	"go/ast"
 	"go/parser"
 	"go/token"
+	"io"
+	"log"
 	"os"
 	"path/filepath"
 	"sort"
@@ -43,6 +45,10 @@ func init() {
 	register("C11", &prop{gen: genC11, drive: driveC11})
 	registerExtractor("strict", extractStrict)
 }
+
+// some function bodies log.Printf on unparsable input (int('x'), parse_time); bin/check merges stderr into the
+// driver's stdout, so a log line would shift every following output line: silence the standard logger while driving.
+func c11QuietLog() { log.SetOutput(io.Discard) }
 
 var c11fm map[string]physical.FunctionDetails
 
@@ -241,6 +247,7 @@ func c11SugarTree(op string, leaves []string) []string {
 var c11Tri = []octosql.Value{octosql.NewBoolean(true), octosql.NewBoolean(false), octosql.NewNull()}
 
 func driveC11(toks []string) string {
+	c11QuietLog()
 	switch toks[0] {
 	case "tree":
 		nf := c11Nat(toks[1])
